@@ -128,7 +128,7 @@ class Sim:
     """mode: 'line' | 'cold' | 'step' | 'none';  opcode: per-instruction events inside TOUCH_FUNCS."""
 
     def __init__(self, programs, exec_op, decider, mode="cold", opcode=False, faults=None, on_boundary=None,
-                 event_budget=50_000_000, roles=None, wall_timeout=400.0):
+                 event_budget=50_000_000, roles=None, wall_timeout=400.0, max_slices=300_000):
         self.tasks = [Task(i, p, (roles or {}).get(i, "client")) for i, p in enumerate(programs)]
         self.exec_op = exec_op
         self.decider = decider
@@ -137,6 +137,9 @@ class Sim:
         self.on_boundary = on_boundary
         self.event_budget = event_budget
         self.wall_timeout = wall_timeout
+        # memory bound: after this many recorded slices the run continues WITHOUT further pre-emption - exactly what a
+        # literal replay does when its slice list is exhausted, so the recorded schedule still replays the run
+        self.max_slices = max_slices
         # faults: {(task, op_idx): {"at": event offset within op, "kind": "interrupt", "exc": "SimInterrupt"|"MemoryError"}}
         self.faults = {}
         for f in faults or []:
@@ -229,8 +232,13 @@ class Sim:
     def _runnable(self):
         return [x for x in self.tasks if not x.finished]
 
+    def _choose(self, cur, runnable):
+        if len(self.schedule) >= self.max_slices:
+            return (cur if cur is not None and not cur.finished else runnable[0]), HUGE
+        return self.decider.choose(self, cur, runnable)
+
     def _switch(self, t):
-        nxt, n = self.decider.choose(self, t, self._runnable())
+        nxt, n = self._choose(t, self._runnable())
         self.schedule.append([t.idx, self.cur_run])
         self.cur_run = 0
         self.slice_left = n
@@ -253,7 +261,7 @@ class Sim:
             self.current = None
             self.done.set()
             return
-        nxt, n = self.decider.choose(self, t, run)
+        nxt, n = self._choose(t, run)
         self.slice_left = n
         self.current = nxt
         nxt.sem.release()
